@@ -11,7 +11,7 @@ from vf.pyvc import loader
 from vf.pyvc.interp import BuiltinV, exc
 from vf.pyvc.values import (BYTES, HObj, Ref, SBytes, SOpaque, ANY, Unsupported, is_byteslike, mk_bytes, zbytes)
 from .base import base_registry
-from .kdf import add_hash_natives, add_hkdf, HASHMOD
+from .kdf import add_hash_natives, add_hkdf, HASHMOD, xor_value, m_strxor      # noqa  (also registers bytes_xor / conj / disj)
 
 H = 'Crypto.Protocol.HPKE.'
 HC = H + 'HPKE_Cipher'
@@ -21,101 +21,6 @@ R = 'spec.rfc9180.'
 # the canonical curve names of Crypto.PublicKey.ECC (EccKey.curve is always one of them: class invariant, C05)
 CURVES = "enum('NIST P-256','NIST P-384','NIST P-521','Curve25519','Curve448','NIST P-192','NIST P-224','Ed25519','Ed448')"
 HPKE_CURVES = ('NIST P-256', 'NIST P-384', 'NIST P-521', 'Curve25519', 'Curve448')
-
-# ---------------------------------------------------------------------------------------------- xor on byte strings
-
-BYTES_XOR = z3.Function('bytes_xor', BYTES, BYTES, BYTES)
-
-
-def _decided_len(E, st, zs):
-    """the length of zs when the path condition fixes it, else None"""
-    n = z3.simplify(z3.Length(zs))
-    if z3.is_int_value(n):
-        return n.as_long()
-    # a conjunct `Length(zs) == k` of the path condition (deterministic: no solver call)
-    ln = z3.Length(zs)
-    todo = list(st.pc)
-    while todo:
-        c = todo.pop()
-        if z3.is_and(c):
-            todo.extend(c.children())
-        elif z3.is_eq(c):
-            l, r = c.arg(0), c.arg(1)
-            if l.eq(ln) and z3.is_int_value(r):
-                return r.as_long()
-            if r.eq(ln) and z3.is_int_value(l):
-                return l.as_long()
-    s = z3.Solver()
-    s.set('timeout', 2000)
-    s.add(*st.pc)
-    if s.check() != z3.sat:
-        return None
-    v = s.model().eval(z3.Length(zs), model_completion=True)
-    if z3.is_int_value(v) and E.implied(st, z3.Length(zs) == v):
-        return v.as_long()
-    return None
-
-
-def xor_value(E, st, a, b):
-    """bytewise exclusive or of two equally long strings.  One symbol for every length; when the path condition fixes the
-    (equal) length to at most 64 the symbol is DEFINED byte by byte with bit-vector xor (exact), otherwise only its length is known"""
-    za, zb = zbytes(a), zbytes(b)
-    t = BYTES_XOR(za, zb)
-    st.fact(z3.Implies(z3.Length(za) == z3.Length(zb), z3.Length(t) == z3.Length(za)))
-    na = _decided_len(E, st, za)
-    if na is not None and na <= 64 and (_decided_len(E, st, zb) == na or E.implied(st, z3.Length(zb) == na)):
-        if na == 0:
-            st.fact(t == z3.Empty(BYTES))
-        else:
-            units = [z3.Unit(za[i] ^ zb[i]) for i in range(na)]
-            st.fact(t == (units[0] if na == 1 else z3.Concat(*units)))
-    return mk_bytes(t)
-
-
-def sf_bytes_xor(E, st, args, kw):
-    a, b = args
-    return [('val', st, xor_value(E, st, a, b))]
-
-
-_interp.SPEC_BUILTINS.setdefault('bytes_xor', BuiltinV('spec.bytes_xor', sf_bytes_xor))
-
-
-def _junction(is_and):
-    def sf(E, st, args, kw):
-        """conj(a, b, ...) / disj(a, b, ...): n-ary `and` / `or` of truth values WITHOUT short-circuit path splitting (all
-        arguments are evaluated; use only with arguments whose evaluation cannot raise)"""
-        ts = [E.truth(a, st) for a in args]
-        if any(t is (not is_and) for t in ts):
-            return [('val', st, not is_and)]
-        zs = [t for t in ts if not isinstance(t, bool)]
-        if not zs:
-            return [('val', st, is_and)]
-        from vf.pyvc.values import mk_bool
-        return [('val', st, mk_bool((z3.And if is_and else z3.Or)(zs) if len(zs) > 1 else zs[0]))]
-    return sf
-
-
-_interp.SPEC_BUILTINS.setdefault('conj', BuiltinV('spec.conj', _junction(True)))
-_interp.SPEC_BUILTINS.setdefault('disj', BuiltinV('spec.disj', _junction(False)))
-
-
-def m_strxor(E, st, args, kwargs):
-    """Crypto.Util.strxor.strxor (src/strxor.c): ValueError iff the lengths differ, else the bytewise xor.
-    ASSUMED (bounded: bounded/accel.py strxor against a Python loop); HPKE does not use output=."""
-    E.registry.used.add('Crypto.Util.strxor.strxor')
-    if len(args) != 2 or kwargs:
-        raise Unsupported('strxor with output=')
-    a, b = args
-    if not is_byteslike(a) or not is_byteslike(b):
-        raise Unsupported('strxor of non-bytes values')
-    outs = []
-    bad, ok = E.split(st, z3.Length(zbytes(a)) != z3.Length(zbytes(b)))
-    if bad is not None:
-        outs.append(('raise', bad, exc(ValueError, 'Only byte strings of equal length can be xored')))
-    if ok is not None:
-        outs.append(('val', ok, xor_value(E, ok, a, b)))
-    return outs
-
 
 # ---------------------------------------------------------------------------------------------- ECC keys, DH
 
